@@ -95,14 +95,14 @@ def token_table(src: str):
     return out
 
 
-def _first_body_pos(lines, n):
+def _first_body_pos(lines, n, ktoks=()):
     """start of the first statement-like child (for block header end), or None"""
     best = None
     for fld in ('body', 'handlers', 'cases', 'orelse', 'finalbody'):
         cs = getattr(n, fld, None)
         for c in cs if isinstance(cs, list) else []:
             if isinstance(c, ast.match_case):
-                p = node_rect(lines, c.pattern)[:2]
+                p = _case_kw(ktoks, node_rect(lines, c.pattern)[:2])
             else:
                 p = node_rect(lines, c)[:2]
                 for d in getattr(c, 'decorator_list', None) or []:
@@ -112,13 +112,23 @@ def _first_body_pos(lines, n):
     return best
 
 
+def _case_kw(ktoks, pos):
+    """position of the `case` keyword that introduces the pattern starting at `pos` (the last one before it)"""
+    best = None
+    for k in ktoks:
+        if k < pos:
+            best = k
+    return best if best is not None else pos
+
+
 def stmt_table(src: str, tree):
     """[[kind, ln, col, eln, ecol, block(0/1), bln, bcol, depth]] for every statement-like node of `tree` (stmt,
     ExceptHandler, match_case): its AST span and, for block statements, where its first child statement starts (the
     block header is everything of the statement before that).  match_case has no span of its own in CPython: the span
-    runs from its pattern to the end of its last body statement and is flagged by kind."""
+    used here runs from its `case` keyword (token table) to the end of its last body statement."""
     lines = src.split('\n')
     out = []
+    ktoks = [(t.start[0] - 1, t.start[1]) for t in (raw_tokens(src) or []) if t.type == tokenize.NAME and t.string == 'case']
 
     def visit(n, depth):
         for fld in ('body', 'handlers', 'cases', 'orelse', 'finalbody'):
@@ -127,13 +137,13 @@ def stmt_table(src: str, tree):
                 if not isinstance(c, (ast.stmt, ast.ExceptHandler, ast.match_case)):
                     continue
                 if isinstance(c, ast.match_case):
-                    r = node_rect(lines, c.pattern)[:2] + node_rect(lines, c.body[-1])[2:]
+                    r = _case_kw(ktoks, node_rect(lines, c.pattern)[:2]) + node_rect(lines, c.body[-1])[2:]
                 else:
                     r = node_rect(lines, c)
                     for d in getattr(c, 'decorator_list', None) or []:
                         r = min(r[:2], node_rect(lines, d)[:2]) + r[2:]
                 blk = isinstance(c, BLOCK_STMTS)
-                b = _first_body_pos(lines, c) if blk else None
+                b = _first_body_pos(lines, c, ktoks) if blk else None
                 out.append([type(c).__name__, r[0], r[1], r[2], r[3], 1 if blk else 0,
                             b[0] if b else -1, b[1] if b else -1, depth])
                 visit(c, depth + 1)
@@ -713,7 +723,7 @@ def run_history(rec: RawRecorder, tid: int, seed: int, src: str, nsteps: int, pr
                                 'path': [[f, -1 if i is None else i] for f, i in _path_of(v.tree, n)]}
                 if plan and plan['call'] == 'put_src' and rng.random() < 0.3 and v.exprs:
                     # put_src may be called on any node of the tree: `self` must not matter
-                    n = rng.choice(v.exprs + v.stmts)
+                    n = rng.choice(v.exprs + (v.stmts if profile != 'clean' else []))
                     plan['via'] = [[f, -1 if i is None else i] for f, i in _path_of(v.tree, n)]
                     plan['self'] = 'stmt' if isinstance(n, (ast.stmt, ast.ExceptHandler, ast.match_case)) else 'expr'
                 if plan and plan['call'] in ('put_src', 'put_none') and profile != 'clean' and rng.random() < 0.15:
